@@ -11,16 +11,24 @@ open Bct Bct.Dist Bct.CoreIR.Dijk
 
 variable {n : ℕ}
 
+/-- a hop count as the float the source stores in `B` -/
+def embB (k : ℕ) : V := .ext (.fin ((k : ℕ) : ℚ))
+
+@[simp] theorem add_ext_ext (a b : Ext) : V.add (.ext a) (.ext b) = .ext (a + b) := rfl
+@[simp] theorem add_embB_one (k : ℕ) : V.add (embB k) (.nat 1) = embB (k + 1) := by
+  show V.ext (Ext.add _ _) = _
+  simp [embB, Ext.add]
+
 /-- `G1[v, w]` as the source keeps it: the length of `v → w` while `w` is temporary, `0` for "no connection" and for
 settled `w` (`G1[:, V] = 0`) -/
 def g1cell (L : AMat Ext n) (S : Vector Bool n) (v w : Fin n) : V :=
   if S[w] then (match L.get v w with | .fin q => .ext (.fin q) | .inf => .ext (.fin 0)) else .ext (.fin 0)
 
 theorem block_spec (L : AMat Ext n) (st : DSt n) (Dm Bm G1 : AMat V n) (u v : Fin n)
-    (hD : ∀ w, Dm.get u w = .ext st.D[w]) (hB : ∀ w, Bm.get u w = .nat st.B[w])
+    (hD : ∀ w, Dm.get u w = .ext st.D[w]) (hB : ∀ w, Bm.get u w = embB st.B[w])
     (hG : ∀ w, G1.get v w = g1cell L st.S v w) (hL : ∀ w q, L.get v w = .fin q → q ≠ 0) :
     ∃ D' B', runBlock refIR Dm Bm G1 u v = some (D', B') ∧
-      (∀ w, D'.get u w = .ext (relaxFrom L st v).D[w]) ∧ (∀ w, B'.get u w = .nat (relaxFrom L st v).B[w]) ∧
+      (∀ w, D'.get u w = .ext (relaxFrom L st v).D[w]) ∧ (∀ w, B'.get u w = embB (relaxFrom L st v).B[w]) ∧
       (∀ a w, a ≠ u → D'.get a w = Dm.get a w ∧ B'.get a w = Bm.get a w) := by
   have hnz : ∀ w, (G1.get v w).nonzero = some (st.S[w] && (L.get v w).isFin) := by
     intro w
@@ -52,7 +60,7 @@ theorem block_spec (L : AMat Ext n) (st : DSt n) (Dm Bm G1 : AMat V n) (u v : Fi
     · simp
     · cases hl : L.get v w with
       | fin q =>
-        simp only [Ext.isFin, and_self, and_true, V.add, V.argmin2, Bool.true_and]
+        simp only [Ext.isFin, and_self, and_true, add_ext_ext, V.argmin2, Bool.true_and]
         cases hlt : Ext.lt (st.D[v.val] + Ext.fin q) st.D[w.val] <;> simp [hlt]
       | inf =>
         simp [Ext.isFin, hadd_inf, Ext.lt]
@@ -64,10 +72,10 @@ run by the interpreter on matrices whose row `u` holds the model state (`D[u, :]
 row of lengths restricted to temporary nodes (the invariant maintained by `S[V] = 0; G1[:, V] = 0`), leaves exactly
 `Dist.relaxFrom L st v` in row `u` of `D` and `B` and touches no other row. -/
 theorem link_relax (ir : RelaxIR) (hok : relaxOk ir = true) (L : AMat Ext n) (st : DSt n) (Dm Bm G1 : AMat V n) (u v : Fin n)
-    (hD : ∀ w, Dm.get u w = .ext st.D[w]) (hB : ∀ w, Bm.get u w = .nat st.B[w])
+    (hD : ∀ w, Dm.get u w = .ext st.D[w]) (hB : ∀ w, Bm.get u w = embB st.B[w])
     (hG : ∀ w, G1.get v w = g1cell L st.S v w) (hL : ∀ w q, L.get v w = .fin q → q ≠ 0) :
     ∃ D' B', runBlock ir Dm Bm G1 u v = some (D', B') ∧
-      (∀ w, D'.get u w = .ext (relaxFrom L st v).D[w]) ∧ (∀ w, B'.get u w = .nat (relaxFrom L st v).B[w]) ∧
+      (∀ w, D'.get u w = .ext (relaxFrom L st v).D[w]) ∧ (∀ w, B'.get u w = embB (relaxFrom L st v).B[w]) ∧
       (∀ a w, a ≠ u → D'.get a w = Dm.get a w ∧ B'.get a w = Bm.get a w) := by
   have hir : ir = refIR := by simpa [relaxOk] using hok
   subst hir
@@ -80,5 +88,461 @@ example : relaxOk { refIR with body := refIR.body.set 5 (.selectEq "ind" "W" "wi
 example : relaxOk { refIR with
     body := refIR.body.set 1 (.stack2 "td" (.rowAt "D" "u" "W") (.addScalar "D" "u" "v" (.rowAt "G1" "u" "W"))) } = false := by
   decide
+
+/-! ### the whole routine -/
+
+/-- the environment holds, for the pass of row `u`, the model state `st` -/
+def RowSt (L : AMat Ext n) (u : Fin n) (E : Env n) (st : DSt n) : Prop :=
+  (∃ Dm, E.mat "D" = some Dm ∧ ∀ w, Dm.get u w = .ext st.D[w]) ∧
+  (∃ Bm, E.mat "B" = some Bm ∧ ∀ w, Bm.get u w = embB st.B[w]) ∧
+  (∃ G1, E.mat "G1" = some G1 ∧ ∀ v w, G1.get v w = g1cell L st.S v w) ∧
+  E.vec "S" = some st.S ∧ E.node "u" = some u
+
+/-- a cell of a named matrix -/
+def cellOf (E : Env n) (m : String) (a w : Fin n) : Option V := (E.mat m).map fun M => M.get a w
+
+/-- rows other than `u` of `D` and `B`, the argument `G` and the dimension names are the same in both environments -/
+def Frame (u : Fin n) (E E' : Env n) : Prop :=
+  (∀ a w, a ≠ u → cellOf E' "D" a w = cellOf E "D" a w ∧ cellOf E' "B" a w = cellOf E "B" a w) ∧
+  E'.mat "G" = E.mat "G" ∧ E'.dims = E.dims
+
+theorem Frame.refl (u : Fin n) (E : Env n) : Frame u E E := ⟨fun _ _ _ => ⟨rfl, rfl⟩, rfl, rfl⟩
+theorem Frame.trans {u : Fin n} {E1 E2 E3 : Env n} (h1 : Frame u E1 E2) (h2 : Frame u E2 E3) : Frame u E1 E3 :=
+  ⟨fun a w ha => ⟨((h2.1 a w ha).1).trans (h1.1 a w ha).1, ((h2.1 a w ha).2).trans (h1.1 a w ha).2⟩,
+   h2.2.1.trans h1.2.1, h2.2.2.trans h1.2.2⟩
+
+theorem block_env (L : AMat Ext n) (hL : ∀ v w q, L.get v w = .fin q → q ≠ 0) (E : Env n) (st : DSt n) (u v : Fin n)
+    (h : RowSt L u E st) :
+    ∃ E', execs refBody { E with node := fun y => if y = "v" then some v else E.node y } = some E' ∧
+      RowSt L u E' (relaxFrom L st v) ∧ Frame u E E' := by
+  obtain ⟨⟨Dm, mD, hD⟩, ⟨Bm, mB, hB⟩, ⟨G1, mG, hG⟩, hS, hu⟩ := h
+  have hnz : ∀ w, (G1.get v w).nonzero = some (st.S[w] && (L.get v w).isFin) := by
+    intro w
+    rw [hG, g1cell]
+    cases hs : st.S[w]
+    · simp [V.nonzero]
+    · cases hl : L.get v w with
+      | fin q => simp [V.nonzero, Ext.isFin, hL v w q hl]
+      | inf => simp [V.nonzero, Ext.isFin]
+  have hadd_inf : ∀ x : Ext, x + Ext.inf = Ext.inf := by
+    intro x; cases x <;> rfl
+  refine ⟨?E', ?h1, ?h2, ?h3⟩
+  case h1 =>
+    simp [refBody, execs, exec, evalL, mD, mB, mG, hu, hnz]
+    rfl
+  case h2 =>
+    refine ⟨⟨_, by simp; rfl, ?_⟩, ⟨_, by simp; rfl, ?_⟩, ⟨G1, by simp [mG], ?_⟩, by simp [hS, relaxFrom], by simp [hu]⟩
+    · intro w
+      simp only [AMat.get_ofFn, true_and, relaxFrom, Fin.getElem_fin, Vector.getElem_ofFn, hD, hG, g1cell,
+        List.contains_iff_mem, List.mem_filter, List.mem_finRange, hnz]
+      cases hs : st.S[w.val]
+      · simp
+      · cases hl : L.get v w with
+        | fin q => simp [Ext.isFin, V.min2, Ext.min]
+        | inf => simp [Ext.isFin, hadd_inf, Ext.lt]
+    · intro w
+      simp only [AMat.get_ofFn, true_and, relaxFrom, Fin.getElem_fin, Vector.getElem_ofFn, hD, hB, hG, g1cell,
+        List.contains_iff_mem, List.mem_filter, List.mem_finRange, hnz]
+      cases hs : st.S[w.val]
+      · simp
+      · cases hl : L.get v w with
+        | fin q =>
+          simp only [Ext.isFin, add_ext_ext, V.argmin2]
+          cases hlt : Ext.lt (st.D[v.val] + Ext.fin q) st.D[w.val] <;> simp [hlt]
+        | inf => simp [Ext.isFin, hadd_inf, Ext.lt]
+    · intro v' w; exact hG v' w
+  case h3 =>
+    refine ⟨fun a w ha => ?_, by simp, rfl⟩
+    simp [cellOf, mD, mB, ha]
+
+theorem RowSt.setNode {L : AMat Ext n} {u : Fin n} {E : Env n} {st : DSt n} (h : RowSt L u E st) (x : String) (hx : x ≠ "u") (v : Fin n) :
+    RowSt L u { E with node := fun y => if y = x then some v else E.node y } st := by
+  obtain ⟨h1, h2, h3, h4, h5⟩ := h
+  refine ⟨h1, h2, h3, h4, ?_⟩
+  show (if "u" = x then some v else E.node "u") = some u
+  rw [if_neg (fun e => hx e.symm)]; exact h5
+
+theorem forNodes_spec (L : AMat Ext n) (hL : ∀ v w q, L.get v w = .fin q → q ≠ 0) (u : Fin n) :
+    ∀ (Vs : List (Fin n)) (E : Env n) (st : DSt n), RowSt L u E st →
+      ∃ E', forNodesRun "v" refBody Vs E = some E' ∧ RowSt L u E' (Vs.foldl (relaxFrom L) st) ∧ Frame u E E' := by
+  intro Vs
+  induction Vs with
+  | nil => intro E st h; exact ⟨E, rfl, h, Frame.refl u E⟩
+  | cons v vs ih =>
+    intro E st h
+    obtain ⟨E1, e1, s1, f1⟩ := block_env L hL E st u v h
+    obtain ⟨E2, e2, s2, f2⟩ := ih E1 _ s1
+    exact ⟨E2, by simp only [forNodesRun, e1, e2], s2, f1.trans f2⟩
+
+/-- `S[V] = 0; G1[:, V] = 0` is `Dist.settle` and keeps `G1` in step with `S` -/
+theorem settle_spec (L : AMat Ext n) (u : Fin n) (E : Env n) (st : DSt n) (Vs : List (Fin n)) (h : RowSt L u E st)
+    (hV : E.idx "V" = some Vs) :
+    ∃ E', wexecs [.clearVec "S" "V", .zeroCols "G1" "V"] E = some (E', false) ∧ RowSt L u E' (settle st Vs) ∧ Frame u E E' ∧
+      E'.idx "V" = some Vs := by
+  obtain ⟨⟨Dm, mD, hD⟩, ⟨Bm, mB, hB⟩, ⟨G1, mG, hG⟩, hS, hu⟩ := h
+  refine ⟨?E', ?h1, ?h2, ?h3, ?h4⟩
+  case h1 =>
+    simp [wexecs, wexec, hS, hV, mG]
+    rfl
+  case h2 =>
+    refine ⟨⟨Dm, by simp [mD], hD⟩, ⟨Bm, by simp [mB], hB⟩, ⟨_, by simp; rfl, ?_⟩, by simp [settle], by simp [hu]⟩
+    intro v w
+    simp only [AMat.get_ofFn, hG, g1cell, settle, Fin.getElem_fin, Vector.getElem_ofFn]
+    by_cases hc : w ∈ Vs
+    · cases hs : st.S[w.val] <;> cases hl : L.get v w <;> simp [hc, hs, hl]
+    · cases hs : st.S[w.val] <;> cases hl : L.get v w <;> simp [hc, hs, hl]
+  case h3 =>
+    exact ⟨fun a w _ => by simp [cellOf, mD, mB], by simp, rfl⟩
+  case h4 => simp [hV]
+
+theorem ext_beq (a b : Ext) : (V.ext a == V.ext b) = decide (a = b) := by
+  by_cases h : a = b
+  · subst h; simp
+  · have : (V.ext a == V.ext b) = false := by
+      rw [beq_eq_false_iff_ne]; intro e; exact h (V.ext.inj e)
+    simp [this, h]
+
+theorem wexecs_append (a b : List WStmt) (E : Env n) :
+    wexecs (a ++ b) E = match wexecs a E with
+      | some (E', false) => wexecs b E'
+      | some (E', true) => some (E', true)
+      | none => none := by
+  induction a generalizing E with
+  | nil => simp [wexecs]
+  | cons s a ih =>
+    simp only [List.cons_append, wexecs]
+    cases h : wexec E s with
+    | none => rfl
+    | some r =>
+      obtain ⟨E', br⟩ := r
+      cases br
+      · exact ih E'
+      · rfl
+
+theorem minCells_spec (Dm : AMat V n) (u : Fin n) (D : Vector Ext n) (hD : ∀ w, Dm.get u w = .ext D[w]) (ws : List (Fin n))
+    (hne : ws.isEmpty = false) : minCells (ws.map fun w => Dm.get u w) = some (minOver D ws) := by
+  have hm : (ws.map fun w => Dm.get u w) = ws.map fun w => V.ext D[w] := List.map_congr_left (fun w _ => hD w)
+  rw [hm]
+  have he : (ws.map fun w => V.ext D[w]).isEmpty = false := by simpa using hne
+  simp only [minCells, he, Bool.false_eq_true, if_false, List.all_map, Function.comp_def, V.toExt?, Option.isSome_some, List.all_eq_true,
+    implies_true, if_true, List.foldl_map, minOver]
+
+/-- the four statements after the `for v in V` loop: the two exit tests and the choice of the next `V` -/
+theorem tail_spec (L : AMat Ext n) (u : Fin n) (E : Env n) (st : DSt n) (h : RowSt L u E st) :
+    ∃ E', wexecs [.breakIfNoneLeft "D" "u" "S", .minMasked "minD" "D" "u" "S", .breakIfInf "minD", .whereEqRow "V" "D" "u" "minD"] E =
+        some (E', ((List.finRange n).filter fun w => st.S[w]).isEmpty ||
+                  decide (minOver st.D ((List.finRange n).filter fun w => st.S[w]) = .inf)) ∧
+      RowSt L u E' st ∧ Frame u E E' ∧
+      ((((List.finRange n).filter fun w => st.S[w]).isEmpty ||
+          decide (minOver st.D ((List.finRange n).filter fun w => st.S[w]) = .inf)) = false →
+        E'.idx "V" = some ((List.finRange n).filter fun x => st.D[x] = minOver st.D ((List.finRange n).filter fun w => st.S[w]))) := by
+  obtain ⟨⟨Dm, mD, hD⟩, ⟨Bm, mB, hB⟩, ⟨G1, mG, hG⟩, hS, hu⟩ := h
+  generalize htemp : ((List.finRange n).filter fun w => st.S[w]) = temp
+  by_cases he : temp.isEmpty = true
+  · refine ⟨E, ?_, ⟨⟨Dm, mD, hD⟩, ⟨Bm, mB, hB⟩, ⟨G1, mG, hG⟩, hS, hu⟩, Frame.refl u E, ?_⟩
+    · simp only [wexecs, wexec, mD, hu, hS, htemp, he, Bool.true_or]
+    · intro hb; simp only [he, Bool.true_or] at hb; exact absurd hb (by decide)
+  · have he' : temp.isEmpty = false := by simpa using he
+    have hmin := minCells_spec Dm u st.D hD temp he'
+    by_cases hi : minOver st.D temp = .inf
+    · refine ⟨{ E with sc := fun y => if y = "minD" then some (minOver st.D temp) else E.sc y },
+        ?_, ⟨⟨Dm, mD, hD⟩, ⟨Bm, mB, hB⟩, ⟨G1, mG, hG⟩, hS, hu⟩, ⟨fun _ _ _ => ⟨rfl, rfl⟩, rfl, rfl⟩, ?_⟩
+      · simp only [wexecs, wexec, mD, hu, hS, htemp, he', hmin, Option.map_some, if_true, hi, beq_self_eq_true, decide_true, Bool.or_true]
+      · intro hb; simp only [hi, decide_true, Bool.or_true] at hb; exact absurd hb (by decide)
+    · refine ⟨{ E with sc := fun y => if y = "minD" then some (minOver st.D temp) else E.sc y,
+                       idx := fun z => if z = "V" then some ((List.finRange n).filter fun w =>
+                         Dm.get u w == V.ext (minOver st.D temp)) else E.idx z },
+        ?_, ⟨⟨Dm, mD, hD⟩, ⟨Bm, mB, hB⟩, ⟨G1, mG, hG⟩, hS, hu⟩, ⟨fun _ _ _ => ⟨rfl, rfl⟩, rfl, rfl⟩, ?_⟩
+      · have hb : (minOver st.D temp == Ext.inf) = false := by simpa using hi
+        simp only [wexecs, wexec, mD, hu, hS, htemp, he', hmin, Option.map_some, if_true, hb, hi, decide_false, Bool.or_false]
+      · intro _
+        simp only [if_true, Option.some.injEq]
+        apply List.filter_congr
+        intro x _
+        rw [hD x]
+        exact ext_beq _ _
+
+theorem refWhile_split : refWhile = [WStmt.clearVec "S" "V", .zeroCols "G1" "V"] ++ ([.forNodes "v" "V" refBody] ++
+    [.breakIfNoneLeft "D" "u" "S", .minMasked "minD" "D" "u" "S", .breakIfInf "minD", .whereEqRow "V" "D" "u" "minD"]) := rfl
+
+/-- one pass of the `while True:` body is one unfolding of `Dist.dLoop` -/
+theorem pass_spec (L : AMat Ext n) (hL : ∀ v w q, L.get v w = .fin q → q ≠ 0) (u : Fin n) (E : Env n) (st : DSt n)
+    (Vs : List (Fin n)) (h : RowSt L u E st) (hV : E.idx "V" = some Vs) :
+    let st1 := Vs.foldl (relaxFrom L) (settle st Vs)
+    let temp := (List.finRange n).filter fun w => st1.S[w]
+    ∃ E', wexecs refWhile E = some (E', temp.isEmpty || decide (minOver st1.D temp = .inf)) ∧ RowSt L u E' st1 ∧ Frame u E E' ∧
+      ((temp.isEmpty || decide (minOver st1.D temp = .inf)) = false →
+        E'.idx "V" = some ((List.finRange n).filter fun x => st1.D[x] = minOver st1.D temp)) := by
+  intro st1 temp
+  obtain ⟨E1, e1, s1, f1, v1⟩ := settle_spec L u E st Vs h hV
+  obtain ⟨E2, e2, s2, f2⟩ := forNodes_spec L hL u Vs E1 _ s1
+  obtain ⟨E3, e3, s3, f3, v3⟩ := tail_spec L u E2 st1 s2
+  refine ⟨E3, ?_, s3, (f1.trans f2).trans f3, v3⟩
+  rw [refWhile_split, wexecs_append, e1]
+  simp only [wexecs_append, wexecs, wexec, v1, e2, Option.map_some]
+  exact e3
+
+theorem while_spec (L : AMat Ext n) (hL : ∀ v w q, L.get v w = .fin q → q ≠ 0) (u : Fin n) :
+    ∀ (fuel : ℕ) (E : Env n) (st : DSt n) (Vs : List (Fin n)), RowSt L u E st → E.idx "V" = some Vs →
+      match dLoop L fuel st Vs with
+      | none => whileTrue refWhile fuel E = none
+      | some st' => ∃ E', whileTrue refWhile fuel E = some E' ∧ RowSt L u E' st' ∧ Frame u E E' := by
+  intro fuel
+  induction fuel with
+  | zero => intro E st Vs _ _; simp [dLoop, whileTrue]
+  | succ f ih =>
+    intro E st Vs h hV
+    obtain ⟨E1, e1, s1, f1, v1⟩ := pass_spec L hL u E st Vs h hV
+    simp only [dLoop, whileTrue, e1]
+    by_cases he : ((List.finRange n).filter fun w => (Vs.foldl (relaxFrom L) (settle st Vs)).S[w]).isEmpty = true
+    · simp only [he, Bool.true_or, if_true]
+      exact ⟨E1, rfl, s1, f1⟩
+    · have he' : ((List.finRange n).filter fun w => (Vs.foldl (relaxFrom L) (settle st Vs)).S[w]).isEmpty = false := by simpa using he
+      by_cases hi : minOver (Vs.foldl (relaxFrom L) (settle st Vs)).D
+          ((List.finRange n).filter fun w => (Vs.foldl (relaxFrom L) (settle st Vs)).S[w]) = .inf
+      · simp only [he', hi, decide_true, Bool.or_true, Bool.false_eq_true, if_false, if_true]
+        exact ⟨E1, rfl, s1, f1⟩
+      · simp only [he', hi, decide_false, Bool.or_false, Bool.false_eq_true, if_false]
+        have hv := v1 (by rw [he', decide_eq_false hi]; rfl)
+        have := ih E1 _ _ s1 hv
+        cases hd : dLoop L f (Vs.foldl (relaxFrom L) (settle st Vs))
+            ((List.finRange n).filter fun x => (Vs.foldl (relaxFrom L) (settle st Vs)).D[x] =
+              minOver (Vs.foldl (relaxFrom L) (settle st Vs)).D ((List.finRange n).filter fun w => (Vs.foldl (relaxFrom L) (settle st Vs)).S[w])) with
+        | none => rw [hd] at this; exact this
+        | some st' =>
+          rw [hd] at this
+          obtain ⟨E2, e2, s2, f2⟩ := this
+          exact ⟨E2, e2, s2, f1.trans f2⟩
+
+/-- the argument as the interpreter sees it: a float matrix of lengths, `0` = no connection -/
+def embG (A : AMat ℚ n) : AMat V n := A.map fun a => V.ext (.fin a)
+
+theorem lenMat_ne_zero (A : AMat ℚ n) : ∀ v w q, (lenMat .none A).get v w = .fin q → q ≠ 0 := by
+  intro v w q h
+  simp only [lenMat, AMat.get_ofFn, lenOf] at h
+  by_cases h0 : A.get v w = 0
+  · simp [h0] at h
+  · simp only [h0, if_false, Ext.fin.injEq] at h
+    rw [← h]; exact h0
+
+/-- between two row passes: `G` and `n` are bound, every finished row holds the model's result, every other row its initial value -/
+def Glob (A : AMat ℚ n) (E : Env n) (done : Fin n → Bool) : Prop :=
+  E.mat "G" = some (embG A) ∧ E.dims "n" = true ∧
+  (∃ Dm, E.mat "D" = some Dm ∧ ∀ a, (done a = true → ∃ st, dRow (lenMat .none A) a = some st ∧ ∀ w, Dm.get a w = .ext st.D[w]) ∧
+      (done a = false → ∀ w, Dm.get a w = .ext (dInit a).D[w])) ∧
+  (∃ Bm, E.mat "B" = some Bm ∧ ∀ a, (done a = true → ∃ st, dRow (lenMat .none A) a = some st ∧ ∀ w, Bm.get a w = embB st.B[w]) ∧
+      (done a = false → ∀ w, Bm.get a w = embB (dInit a).B[w]))
+
+/-- the statements of a row pass before `while True:` establish the model's initial state of that row -/
+theorem rowPre_spec (A : AMat ℚ n) (E : Env n) (done : Fin n → Bool) (u : Fin n) (h : Glob A E done) (hu : done u = false) :
+    ∃ E1, rexecs refDijk.rowPre { E with node := fun y => if y = "u" then some u else E.node y } = some E1 ∧
+      RowSt (lenMat .none A) u E1 (dInit u) ∧ E1.idx "V" = some [u] ∧
+      E1.mat "D" = E.mat "D" ∧ E1.mat "B" = E.mat "B" ∧ E1.mat "G" = E.mat "G" ∧ E1.dims = E.dims := by
+  obtain ⟨hG, hn, ⟨Dm, mD, hD⟩, ⟨Bm, mB, hB⟩⟩ := h
+  refine ⟨?E1, ?h1, ?h2, ?h3, ?h4, ?h5, ?h6, ?h7⟩
+  case h1 =>
+    simp [refDijk, rexecs, rexec, hn, hG]
+    rfl
+  case h2 =>
+    refine ⟨⟨Dm, by simp [mD], (hD u).2 hu⟩, ⟨Bm, by simp [mB], (hB u).2 hu⟩, ⟨embG A, by simp, ?_⟩, by simp [dInit], by simp⟩
+    intro v w
+    simp only [embG, AMat.map, AMat.get_ofFn, g1cell, dInit, Fin.getElem_fin, Vector.getElem_ofFn, if_true, lenMat, lenOf]
+    by_cases h0 : A.get v w = 0 <;> simp [h0]
+  all_goals simp
+
+theorem Glob.step (A : AMat ℚ n) (E E1 E2 : Env n) (done : Fin n → Bool) (u : Fin n) (st' : DSt n)
+    (h : Glob A E done) (hD1 : E1.mat "D" = E.mat "D") (hB1 : E1.mat "B" = E.mat "B") (hG1 : E1.mat "G" = E.mat "G")
+    (hd1 : E1.dims = E.dims) (hrow : dRow (lenMat .none A) u = some st') (hs : RowSt (lenMat .none A) u E2 st') (hf : Frame u E1 E2) :
+    Glob A E2 (fun a => done a || a == u) := by
+  obtain ⟨hG, hn, ⟨Dm, mD, hD⟩, ⟨Bm, mB, hB⟩⟩ := h
+  obtain ⟨⟨Dm2, mD2, hD2⟩, ⟨Bm2, mB2, hB2⟩, _, _, _⟩ := hs
+  obtain ⟨hcells, hGf, hdf⟩ := hf
+  refine ⟨by rw [hGf, hG1, hG], by rw [hdf, hd1, hn], ⟨Dm2, mD2, fun a => ?_⟩, ⟨Bm2, mB2, fun a => ?_⟩⟩
+  · by_cases hau : a = u
+    · subst hau
+      exact ⟨fun _ => ⟨st', hrow, hD2⟩, fun hc => by simp at hc⟩
+    · have hc := (hcells a · hau)
+      have heq : ∀ w, Dm2.get a w = Dm.get a w := by
+        intro w
+        have := (hc w).1
+        simp only [cellOf, mD2, hD1, mD, Option.map_some, Option.some.injEq] at this
+        exact this
+      have hbeq : (a == u) = false := by simpa using hau
+      simp only [hbeq, Bool.or_false]
+      exact ⟨fun hd => by obtain ⟨st, e, hw⟩ := (hD a).1 hd; exact ⟨st, e, fun w => (heq w).trans (hw w)⟩,
+             fun hd w => (heq w).trans ((hD a).2 hd w)⟩
+  · by_cases hau : a = u
+    · subst hau
+      exact ⟨fun _ => ⟨st', hrow, hB2⟩, fun hc => by simp at hc⟩
+    · have hc := (hcells a · hau)
+      have heq : ∀ w, Bm2.get a w = Bm.get a w := by
+        intro w
+        have := (hc w).2
+        simp only [cellOf, mB2, hB1, mB, Option.map_some, Option.some.injEq] at this
+        exact this
+      have hbeq : (a == u) = false := by simpa using hau
+      simp only [hbeq, Bool.or_false]
+      exact ⟨fun hd => by obtain ⟨st, e, hw⟩ := (hB a).1 hd; exact ⟨st, e, fun w => (heq w).trans (hw w)⟩,
+             fun hd w => (heq w).trans ((hB a).2 hd w)⟩
+
+/-- one row pass: prelude + `while True:` is `Dist.dRow` (fuel `n + 1` as in the model) -/
+theorem row_spec (A : AMat ℚ n) (E : Env n) (done : Fin n → Bool) (u : Fin n) (h : Glob A E done) (hu : done u = false) :
+    match dRow (lenMat .none A) u with
+    | none => forRows refDijk (n + 1) [u] E = none
+    | some _ => ∃ E', forRows refDijk (n + 1) [u] E = some E' ∧ Glob A E' (fun a => done a || a == u) := by
+  obtain ⟨E1, e1, s1, v1, d1, b1, g1, n1⟩ := rowPre_spec A E done u h hu
+  have hw := while_spec (lenMat .none A) (lenMat_ne_zero A) u (n + 1) E1 (dInit u) [u] s1 v1
+  have e1' : rexecs refDijk.rowPre { E with node := fun y => if y = refDijk.rowVar then some u else E.node y } = some E1 := e1
+  cases hd : dRow (lenMat .none A) u with
+  | none =>
+    have hd' : dLoop (lenMat .none A) (n + 1) (dInit u) [u] = none := hd
+    rw [hd'] at hw
+    simp only [forRows, e1']
+    have hw' : whileTrue refDijk.whileBody (n + 1) E1 = none := hw
+    simp only [hw']
+  | some st' =>
+    have hd' : dLoop (lenMat .none A) (n + 1) (dInit u) [u] = some st' := hd
+    rw [hd'] at hw
+    obtain ⟨E2, e2, s2, f2⟩ := hw
+    have e2' : whileTrue refDijk.whileBody (n + 1) E1 = some E2 := e2
+    exact ⟨E2, by simp only [forRows, e1', e2'], Glob.step A E E1 E2 done u st' h d1 b1 g1 n1 hd s2 f2⟩
+
+theorem forRows_cons (ir : DijkIR) (fuel : ℕ) (u : Fin n) (us : List (Fin n)) (E : Env n) :
+    forRows ir fuel (u :: us) E = match forRows ir fuel [u] E with
+      | some E' => forRows ir fuel us E'
+      | none => none := by
+  simp only [forRows]
+  cases hr : rexecs ir.rowPre { E with node := fun y => if y = ir.rowVar then some u else E.node y } with
+  | none => rfl
+  | some E1 => cases hw : whileTrue ir.whileBody fuel E1 <;> simp [hw]
+
+theorem rows_spec (A : AMat ℚ n) :
+    ∀ (us : List (Fin n)) (E : Env n) (done : Fin n → Bool), Glob A E done → (∀ a ∈ us, done a = false) → us.Nodup →
+      ((∀ a ∈ us, (dRow (lenMat .none A) a).isSome = true) →
+          ∃ E', forRows refDijk (n + 1) us E = some E' ∧ Glob A E' (fun a => done a || us.contains a)) ∧
+      ((∃ a ∈ us, dRow (lenMat .none A) a = none) → forRows refDijk (n + 1) us E = none) := by
+  intro us
+  induction us with
+  | nil =>
+    intro E done h _ _
+    refine ⟨fun _ => ⟨E, rfl, ?_⟩, fun ⟨a, ha, _⟩ => absurd ha List.not_mem_nil⟩
+    simpa using h
+  | cons u us ih =>
+    intro E done h hnd hnodup
+    have hu : done u = false := hnd u (by simp)
+    have hr := row_spec A E done u h hu
+    have hnodup' := (List.nodup_cons.mp hnodup)
+    constructor
+    · intro hall
+      have hsu := hall u (by simp)
+      cases hd : dRow (lenMat .none A) u with
+      | none => rw [hd] at hsu; simp at hsu
+      | some st' =>
+        rw [hd] at hr
+        obtain ⟨E1, e1, g1⟩ := hr
+        have hnd' : ∀ a ∈ us, (fun a => done a || a == u) a = false := by
+          intro a ha
+          have hau : a ≠ u := fun e => hnodup'.1 (e ▸ ha)
+          simp [hnd a (by simp [ha]), hau]
+        obtain ⟨E2, e2, g2⟩ := (ih E1 _ g1 hnd' hnodup'.2).1 (fun a ha => hall a (by simp [ha]))
+        refine ⟨E2, by rw [forRows_cons, e1]; exact e2, ?_⟩
+        have : (fun a => (done a || a == u) || us.contains a) = fun a => done a || (u :: us).contains a := by
+          funext a
+          by_cases hau : a = u
+          · subst hau; simp
+          · have : (a == u) = false := by simpa using hau
+            simp [this, List.contains_cons, hau]
+        rw [← this]; exact g2
+    · rintro ⟨a, ha, hnone⟩
+      rw [forRows_cons]
+      cases hd : dRow (lenMat .none A) u with
+      | none => rw [hd] at hr; simp only [hr]
+      | some st' =>
+        rw [hd] at hr
+        obtain ⟨E1, e1, g1⟩ := hr
+        simp only [e1]
+        have hau : a ≠ u := by intro e; subst e; rw [hd] at hnone; cases hnone
+        have ha' : a ∈ us := by
+          rcases List.mem_cons.mp ha with e | e
+          · exact absurd e hau
+          · exact e
+        have hnd' : ∀ b ∈ us, (fun b => done b || b == u) b = false := by
+          intro b hb
+          have hbu : b ≠ u := fun e => hnodup'.1 (e ▸ hb)
+          simp [hnd b (by simp [hb]), hbu]
+        exact (ih E1 _ g1 hnd' hnodup'.2).2 ⟨a, ha', hnone⟩
+
+theorem pre_spec (A : AMat ℚ n) :
+    ∃ E1, pexecs refDijk.pre
+        ({ mat := fun y => if y = "G" then some (embG A) else none, node := fun _ => none, idx := fun _ => none, arr := fun _ => none,
+           stack := fun _ => none, vec := fun _ => none, sc := fun _ => none, dims := fun _ => false } : Env n) = some E1 ∧
+      Glob A E1 (fun _ => false) := by
+  refine ⟨?E1, ?h1, ?h2⟩
+  case h1 =>
+    simp [refDijk, pexecs, pexec]
+    rfl
+  case h2 =>
+    refine ⟨by simp, by simp, ⟨_, by simp; rfl, fun a => ⟨fun hc => by simp at hc, fun _ w => ?_⟩⟩,
+      ⟨_, by simp; rfl, fun a => ⟨fun hc => by simp at hc, fun _ w => ?_⟩⟩⟩
+    · simp only [AMat.get_ofFn, dInit, Fin.getElem_fin, Vector.getElem_ofFn]
+      by_cases haw : a = w
+      · subst haw; simp
+      · have : ¬ w = a := fun e => haw e.symm
+        simp [haw, this]
+    · simp [dInit, embB]
+
+/-- **Link, `distance_wei` (whole routine).**  If the generated obligation `dijkOk ir` holds, the program extracted from the
+current source — initialisation of `D` / `B`, the row loop, `S` / `G1` / `V`, the settling statements, the relaxation block, both
+exit tests, the choice of the next `V` — run by the interpreter with the model's fuel `n + 1` per `while` loop on the float
+matrix of lengths (`0` = no connection), returns exactly `Dist.dijkstra (lenMat .none A)` (`D` as floats, `B` as the floats
+`np.zeros` makes them), and runs out of fuel exactly when the model does. -/
+theorem link_distance_wei (ir : DijkIR) (hok : dijkOk ir = true) (A : AMat ℚ n) :
+    runDijk ir (n + 1) (embG A) = (dijkstra (lenMat .none A)).map fun r => [r.1.map V.ext, r.2.map embB] := by
+  have hir : ir = refDijk := by simpa [dijkOk] using hok
+  subst hir
+  obtain ⟨E1, e1, g1⟩ := pre_spec A
+  have hdims : E1.dims refDijk.rowBound = true := g1.2.1
+  have hrows := rows_spec A (List.finRange n) E1 (fun _ => false) g1 (fun _ _ => rfl) (List.nodup_finRange n)
+  have e1' : pexecs refDijk.pre
+      ({ mat := fun y => if y = refDijk.param then some (embG A) else none, node := fun _ => none, idx := fun _ => none,
+         arr := fun _ => none, stack := fun _ => none, vec := fun _ => none, sc := fun _ => none, dims := fun _ => false } : Env n) = some E1 := e1
+  simp only [runDijk, e1', hdims, if_true]
+  by_cases hall : ∀ i : Fin n, (dRow (lenMat .none A) i).isSome = true
+  · obtain ⟨E2, e2, g2⟩ := hrows.1 (fun a _ => hall a)
+    obtain ⟨_, _, ⟨Dm, mD, hD⟩, ⟨Bm, mB, hB⟩⟩ := g2
+    simp only [e2, show refDijk.ret = ["D", "B"] from rfl, List.mapM_cons, List.mapM_nil, mD, mB, Option.pure_def, Option.bind_eq_bind,
+      Option.bind_some, dijkstra, allRows, hall, implies_true, dite_true, Option.map_some]
+    congr 1
+    have hrowD : ∀ a w, Dm.get a w = V.ext ((dRow (lenMat .none A) a).get (hall a)).D[w] := by
+      intro a w
+      obtain ⟨st, e, hw⟩ := (hD a).1 (by simp [List.mem_finRange])
+      rw [hw w]; congr 2; simp [e]
+    have hrowB : ∀ a w, Bm.get a w = embB ((dRow (lenMat .none A) a).get (hall a)).B[w] := by
+      intro a w
+      obtain ⟨st, e, hw⟩ := (hB a).1 (by simp [List.mem_finRange])
+      rw [hw w]; congr 2; simp [e]
+    have eD : Dm = AMat.map V.ext (Vector.ofFn fun u => (Vector.ofFn fun i => (dRow (lenMat .none A) i).get (hall i))[u].D) := by
+      apply AMat.ext_get; intro a w
+      rw [hrowD a w, AMat.map, AMat.get_ofFn]
+      simp [AMat.get]
+    have eB : Bm = AMat.map embB (Vector.ofFn fun u => (Vector.ofFn fun i => (dRow (lenMat .none A) i).get (hall i))[u].B) := by
+      apply AMat.ext_get; intro a w
+      rw [hrowB a w, AMat.map, AMat.get_ofFn]
+      simp [AMat.get]
+    rw [eD, eB]
+  · have hex : ∃ a ∈ List.finRange n, dRow (lenMat .none A) a = none := by
+      by_contra hne
+      apply hall
+      intro i
+      cases hd : dRow (lenMat .none A) i with
+      | none => exact absurd ⟨i, List.mem_finRange i, hd⟩ hne
+      | some _ => rfl
+    simp only [hrows.2 hex, dijkstra, allRows, hall, dite_false, Option.map_none]
+
+example : dijkOk refDijk = true := by decide
+/-- a settling step that forgets `G1[:, V] = 0` is rejected -/
+example : dijkOk { refDijk with whileBody := refDijk.whileBody.eraseIdx 1 } = false := by decide
+/-- choosing the next `V` among the temporary nodes only (`D[u, S] == minD`) would be another program: rejected -/
+example : dijkOk { refDijk with whileBody := refDijk.whileBody.set 6 (.whereEqRow "V" "D" "v" "minD") } = false := by decide
 
 end Bct.Cores.Dijk
